@@ -13,6 +13,10 @@ COVERED GRAMMAR (`P1b.SStmt`, PoryProofs/StmtGrammar2.lean) = the grammar of P1 
   (a) conditions `SCond := BoolGen.GOr CLeaf`: `||` / `&&` / `!( )` / parentheses over leaves that are the
       non-autovar leaves of C02P OR auto-var leaves `[!] cmd [op N]` — anywhere in the expression, also inside
       `!( … )` (P1: one auto-var leaf alone);
+  (b) leaves `CLeaf.kw` (`LeafGen.KLeaf`): `[!] flag|defeated|var ( operand… )` with a multi-token operand,
+      followed by nothing, `==|!= TRUE|FALSE` (flag / defeated) or `op value` (var), and `CLeaf.autoV`:
+      `cmd op value`, where `value` (`LeafGen.CmpVal`) is one or more tokens up to the next `)`, `&&`, `||`, or
+      `value( inner… )` with balanced parentheses inside;
   (c) ONE command form `CmdGen.CmdF` for a command statement: `name ( a0 , … )` with arguments of plain tokens,
       balanced parentheses, string literals, typed strings, `moves( … )` AND inline `format( [ty]"…" , params )`
       (`TextValueParse.IElem`), `name ( )`, `name`;
@@ -21,8 +25,7 @@ COVERED GRAMMAR (`P1b.SStmt`, PoryProofs/StmtGrammar2.lean) = the grammar of P1 
       part of the implicit data of the `if` / `while` / `do` / `switch` statement, in source order);
   (e) a poryswitch case `key :` without a statement (only possible directly before the closing `}`: anywhere
       else the parser reads the next key as the statement — `colon_case_reads_next_key`).
-  NOT covered — (b): `value( … )` comparison values and multi-token operands / comparison values of condition
-  leaves (`parseConditionVarOperator`'s `valueLoop` / `collectUntilRange`, multi-token `collectUntil`).
+  All five items of the task are covered.
 
 REFERENCE ELABORATION (`P1b.elabL`, `elabE`, `elaborate`): as in P1 (ids in source order, first violation in
 source order wins).  A condition is elaborated by `BoolGen.elabOr`: the tree of `C02P.treeOr` (precedence `!` >
@@ -46,9 +49,16 @@ PROVED (every `env`, script name, start token, surrounding state, tail, fuel ≥
   error side for auto-var leaves inside compound conditions that `C02Q` left open;
 * `command_elab` : `parseCommandStatement` on every written form of a command (`CmdGen.cmdF_run`), with the
   error side of inline `format( … )` that `C09c.parse_command_inline` left open.
-Nothing is partial for the covered grammar.  (b) is not done.
+Nothing is partial for the covered grammar.
 
 BEHAVIOUR WORTH KNOWING (model = Go):
+* `value( … )`: every token inside (parentheses included) is substituted and the literals are joined by single
+  spaces; when the result contains a space it is wrapped as `( … )` (with spaces inside the parentheses:
+  `value(0x4000 + 1)` ↦ `( 0x4000 + 1 )`); the comparison is marked strict.  A comparison value written as
+  several tokens and a multi-token operand are joined by single spaces; the operand token keeps the positions
+  of the FIRST written operand token.
+* After `!` no comparison is parsed (`!var(X) == 1` is outside the grammar: the parser stops after `)` and the
+  caller rejects the `==`).
 * `key :` as a poryswitch case: the parser calls the statement parser unless the next token is `}`; so in
   `A: B: foo` the case `A` consists of the LABEL statement `B:` and `foo` is then rejected as a case key
   position … (`colon_case_reads_next_key`: `poryswitch (X) { A: B: foo }` ⇒ case `A` = `[label B]`, and `foo`
@@ -57,7 +67,7 @@ BEHAVIOUR WORTH KNOWING (model = Go):
   was taken and before the position check of the auto-var command.
 -/
 namespace Pory.P1b
-open Pory Pory.Parser Pory.C02P Pory.C10b Pory.BoolGen Pory.CmdGen Pory.TextValueParse
+open Pory Pory.Parser Pory.C02P Pory.C10b Pory.BoolGen Pory.CmdGen Pory.TextValueParse Pory.LeafGen
 open Pory.StmtG (Ctx ctxOf)
 
 /-- **P1b, both halves in one equation.** -/
@@ -296,6 +306,46 @@ example (startTok : Tok) (fuel : Nat) (hf : 100 ≤ fuel) :
         { toks := [rb], eof := tk .EOF "", nextSid := 2, nextCmdId := 3 }) :=
   (parse_block_print envEx "Main" startTok exD rb [] (by decide) rfl _ rfl fuel
     (Nat.le_trans (by decide) hf) _ _ { nextSid := 2, nextCmdId := 3 } rfl).1
+
+/-! (b) `while (var(VAR_A) >= value(0x4000 + 1)) { foo } if (random(4) < N + 1 && defeated(TRAINER_A B)) { }` -/
+
+def exB : List SStmt :=
+  [.while_ (tk .WHILE "while") lp
+    (.one (.one (.leaf (.kw ⟨none, tk .VAR "var", lp, tk .IDENT "VAR_A", [], rp,
+      .var (tk .GTE ">=") (.value (tk .VALUE "value") lp [tk .INT "0x4000", tk .ILLEGAL "+", tk .INT "1"] rp)⟩))))
+    rp lb [.cmd (.bare (tk .IDENT "foo"))] rb,
+   .ite (tk .IF "if") lp
+    (.one (.more
+      (.leaf (.autoV (.args (tk .IDENT "random") lp [tokI .INT "4"] [] rp) (tk .LT "<")
+        (.toks (tk .IDENT "N") [tk .ILLEGAL "+", tk .INT "1"])))
+      {}
+      (.one (.leaf (.kw ⟨none, tk .DEFEATED "defeated", lp, tk .IDENT "TRAINER_A", [tk .IDENT "B"], rp, .none⟩)))))
+    rp lb [] rb [] .none]
+
+#guard (Lexer.lexAll ("while (var(VAR_A) >= value(0x4000 + 1)) { foo } " ++
+    "if (random(4) < N + 1 && defeated(TRAINER_A B)) { } }").toList).map (fun t => (t.type, t.lit)) ==
+  (printStmts exB ++ [rb, tk .EOF ""]).map (fun t => (t.type, t.lit))
+
+/-- `value( … )`: the tokens inside, constants substituted, joined by spaces and — because the result contains a
+space — wrapped in `( … )`; the comparison is STRICT.  A comparison value written as several tokens (`N + 1`
+with `const N = 5`) and a multi-token operand are joined by single spaces. -/
+example (startTok : Tok) (fuel : Nat) (hf : 100 ≤ fuel) :
+    (parseBlockStatement envEx "Main" startTok fuel [] {}).run
+        { toks := printStmts exB ++ [rb], eof := tk .EOF "", constants := [("N", "5")] } =
+      .ok (([.while_ (tk .WHILE "while") 0
+               (some (.leaf { type := .VAR, operand := tk .IDENT "VAR_A", operator := .GTE,
+                              cmpValue := "( 0x4000 + 1 )", strict := true }))
+               [.cmd (cmdOf 0 "foo" [])],
+             .ite (tk .IF "if")
+               (.bin
+                 (.leaf { type := .VAR, operand := tk .IDENT "VAR_RESULT", operator := .LT, cmpValue := "5 + 1",
+                          preamble := some (cmdOf 1 "random" ["4"]) })
+                 .AND
+                 (.leaf { type := .DEFEATED, operand := tk .IDENT "TRAINER_A B", operator := .EQ,
+                          cmpValue := "TRUE" })) [] [] none], {}),
+        { toks := [rb], eof := tk .EOF "", constants := [("N", "5")], nextSid := 1, nextCmdId := 2 }) :=
+  (parse_block_print envEx "Main" startTok exB rb [] (by decide) rfl _ rfl fuel
+    (Nat.le_trans (by decide) hf) _ _ { consts := [("N", "5")], nextSid := 1, nextCmdId := 2 } rfl).1
 
 /-! (e) `poryswitch (GAME) { RUBY: foo  _: }` -/
 
